@@ -3,7 +3,10 @@
 //          is transferred; recvmsg stores a PREFIX-length run of the next stream bytes at the addresses of the iovecs in order)
 pub type RawFd = i32;
 // R10: an io::Error built with from_raw_os_error(e) is modelled by e
-pub enum Error { SocketRetry(i32), SocketBroken(i32), SocketError(i32), SocketConnect(i32), PartialMessage, Other }
+pub enum Error { SocketRetry(i32), SocketBroken(i32), SocketError(i32), SocketConnect(i32), PartialMessage, Disconnected,
+    // the remaining variants of vhost_user::Error (payloads dropped: they are not produced by the functions of this unit)
+    InvalidParam, InvalidOperation, InactiveFeature, InactiveOperation, InvalidMessage, OversizedMsg, IncorrectFds, BackendInternalError,
+    FrontendInternalError, FeatureMismatch, ReqHandlerError, MemFdCreateError, FileTruncateError, MemFdSealError }
 pub struct ErrnoError { pub e: i32 }
 impl ErrnoError { pub fn errno(&self) -> (r: i32) ensures r == self.e { self.e } }
 // the classification the property names (retry vs broken), written from its text: EAGAIN/EWOULDBLOCK 11, EINTR 4, ENOBUFS 105,
@@ -31,6 +34,32 @@ pub fn tail_addr(v: &mut Vec<u8>, from: usize) -> (r: usize)
     requires from <= old(v)@.len()
     ensures r == base_of(old(v)) + from, final(v)@.len() == old(v)@.len(), base_of(final(v)) == base_of(old(v))
 { unimplemented!() }
+
+// ---- recv_into_iovec (one recvmsg + wrapping of the received descriptors)
+pub const MAX_ATTACHED_FD_ENTRIES: usize = 32;   // R4: re-checked against the working tree by the unit builder
+// R19 target of `vec![0; MAX_ATTACHED_FD_ENTRIES]`
+#[verifier::external_body]
+pub fn vec_fds_zeroed(n: usize) -> (r: Vec<RawFd>) ensures r@.len() == n { vec![0; n] }
+// R19 target of `fd_array.iter().take(n).map(|fd| File::from_raw_fd(*fd)).collect()`: each of the first n raw descriptors is wrapped
+// in exactly one File (assumed: the adapter chain's meaning; cross-checked on the real code by c09_recv_into_iovec_wraps_each_fd_once_bounded)
+#[verifier::external_body]
+pub fn wrap_fds(fd_array: &Vec<RawFd>, n: usize) -> (r: Vec<File>)
+    requires n <= fd_array@.len()
+    ensures r@.len() == n, forall|i: int| 0 <= i < n ==> (#[trigger] r@[i]).id@ == fd_array@[i]
+{ unimplemented!() }
+impl Endpoint {
+    // assumed: A-OS one recvmsg with a descriptor buffer: the kernel installs k <= capacity descriptors in this process and writes
+    // their numbers to fds[..k]; on error nothing is received. `raw` is the ghost list of descriptors installed so far.
+    #[verifier::external_body]
+    pub fn sock_recv_with_fds_into(&mut self, iovs: &mut [iovec], fds: &mut Vec<RawFd>) -> (r: ErrnoResult<(usize, usize)>)
+        ensures final(iovs)@ == old(iovs)@, final(fds)@.len() == old(fds)@.len(),
+            match r {
+                Ok((n, k)) => k <= old(fds)@.len() && final(self).raw@ == old(self).raw@ + final(fds)@.subrange(0, k as int).map(|i: int, f: RawFd| f as int)
+                    && final(self).pos@ == old(self).pos@ + n,
+                Err(_) => final(self).raw@ == old(self).raw@ && final(self).pos@ == old(self).pos@,
+            }
+    { unimplemented!() }
+}
 impl Endpoint {
     // assumed: A-OS  self.sock.recv_with_fds(iovs, fds) = one recvmsg (same contract as recv_into_iovec, no descriptor buffer)
     #[verifier::external_body]
@@ -116,7 +145,9 @@ pub open spec fn fids(f: Option<Vec<File>>) -> Option<Seq<int>> { match f { Some
 // `eof`: a receive with room for at least one byte returned 0 (end of stream); `stalled`: a send of at least one byte was accepted as 0
 pub struct Endpoint { pub wire: Ghost<Seq<u8>>, pub calls: Ghost<Seq<SendRec>>, pub pos: Ghost<int>, pub stored: Ghost<Seq<(int, int)>>, pub rcalls: Ghost<Seq<RecvRec>>, pub eof: Ghost<bool>, pub stalled: Ghost<bool>,
     // A-RETRY-FINITE: how many more times the socket may answer `retry` (EAGAIN/EINTR/ENOBUFS/ENOMEM); used only as a termination measure
-    pub retry_budget: Ghost<nat> }
+    pub retry_budget: Ghost<nat>,
+    // descriptors the kernel installed in this process through recvmsg control data, in arrival order
+    pub raw: Ghost<Seq<int>> }
 
 impl Endpoint {
     // assumed: A-OS recvmsg stores the next n (<= capacity) stream bytes at the iovecs' addresses in order; nothing on error
